@@ -14,7 +14,7 @@ type Mutant struct {
 	File   string // repo-relative
 	Old    string // unique text to replace (stale if absent)
 	New    string
-	Expect string // rule id that must report a new violation ("P2" or "P2|construct substring")
+	Expect string      // rule id that must report a new violation ("P2" or "P2|construct substring")
 	More   [][2]string // further (old, new) replacements in the same file, each old unique
 }
 
